@@ -179,6 +179,8 @@ def flatten_decls(top):
                 walk(sub, parts + [name], levels + [list(dims)], pend)
 
     def mk_spec(mode, v, lead, f):
+        if isinstance(v, dict) and "dm" in v:     # builtin array constructor -> ca.DM
+            return {"form": "dm", "v": v["v"], "skip": lead, "text": v["dm"]}
         if isinstance(v, dict) and "ref" in v:    # (element of) an array parameter
             return {"form": "pref", "p": v["ref"], "el": v.get("el"), "op": v.get("op", "ref"), "k": v.get("k", 1),
                     "p2": v.get("ref2"), "dims": v.get("dims")}
@@ -193,6 +195,8 @@ def flatten_decls(top):
 
 
 def pexpr_text(v):
+    if "dm" in v:
+        return v["dm"]
     if "ref" in v:
         if v.get("el") is not None:
             return "%s[%d]" % (v["ref"], v["el"] + 1)
@@ -207,6 +211,38 @@ def pexpr_text(v):
     if isinstance(v["k"], list):
         return "%s*%s" % (v["p"], lit(v["k"]))
     return "%s*%s" % (lit(v["k"]), v["p"])
+
+
+def dm_ctor(rng, dims):
+    """An attribute written with a builtin array constructor (pymoca evaluates it to a numeric ca.DM) with distinct
+    entries, for own dims [n], [n,1] (vector constructors) or [n,n] (matrix constructors); None otherwise."""
+    if len(dims) == 1 or (len(dims) == 2 and dims[1] == 1 and dims[0] > 1):
+        n = dims[0]
+        r = rng.random()
+        if r < 0.35:
+            a, k = rng.randint(-5, 5), rng.randint(1, 4)
+            return {"dm": "linspace(%d, %d, %d)" % (a, a + (n - 1) * k, n), "v": [a + i * k for i in range(n)]}
+        if r < 0.6 and n >= 2:
+            v = [rng.randint(-9, 9) for _ in range(n)]
+            cut = rng.randint(1, n - 1)
+            return {"dm": "cat(1, %s, %s)" % (lit(v[:cut]), lit(v[cut:])), "v": v}
+        if r < 0.85:
+            k = rng.choice([-3, -2, 2, 3])
+            v = [rng.randint(-4, 4) for _ in range(n)]
+            return {"dm": "%d * %s" % (k, lit(v)), "v": [k * x for x in v]}
+        a, k = rng.randint(-5, 5), rng.randint(1, 4)
+        return {"dm": "-linspace(%d, %d, %d)" % (a, a + (n - 1) * k, n), "v": [-(a + i * k) for i in range(n)]}
+    if len(dims) == 2 and dims[0] == dims[1] and dims[0] > 1:
+        n = dims[0]
+        r = rng.random()
+        if r < 0.3:
+            return {"dm": "identity(%d)" % n, "v": [[1 if i == j else 0 for j in range(n)] for i in range(n)]}
+        if r < 0.7:
+            d = [rng.randint(1, 9) for _ in range(n)]
+            return {"dm": "diagonal(%s)" % lit(d), "v": [[d[i] if i == j else 0 for j in range(n)] for i in range(n)]}
+        k = rng.choice([-3, -2, 2, 3])
+        return {"dm": "%d * identity(%d)" % (k, n), "v": [[k if i == j else 0 for j in range(n)] for i in range(n)]}
+    return None
 
 
 def array_param_expr(rng, same):
@@ -247,6 +283,10 @@ def gen_program(rng, stream="main"):
             if rng.random() < 0.5:
                 a = rng.choice(NUM_ATTRS)
                 f.cls_attrs[a] = ("each" if dims else "plain", rng.randint(-9, 9))
+            if dims and rng.random() < 0.3:
+                free = [a for a in NUM_ATTRS if a not in f.cls_attrs]
+                f.cls_attrs[rng.choice(free)] = ("plain", dm_ctor(rng, dims))
+                feats.add("attr-dm-in-class")
             if kind == "param":
                 if not dims:
                     f.value = ("scalar", rng.randint(1, 5))
@@ -283,7 +323,14 @@ def gen_program(rng, stream="main"):
     shapes = []
     for _ in range(rng.randint(1, 3)):
         r = rng.random()
-        shapes.append([rng.randint(2, 4)] if r < 0.55 else [rng.randint(2, 3), rng.randint(2, 3)])
+        if r < 0.5:
+            shapes.append([rng.randint(2, 4)])
+        elif r < 0.8:
+            shapes.append([rng.randint(2, 3), rng.randint(2, 3)])
+        else:       # 2-D with a dimension of size 1: column, row and 1x1 matrices
+            n = rng.randint(2, 4)
+            shapes.append(rng.choice([[n, 1], [n, 1], [1, n], [1, 1]]))
+            feats.add("shape-%s" % ("col" if shapes[-1][1] == 1 and shapes[-1][0] > 1 else "row" if shapes[-1][0] == 1 and shapes[-1][1] > 1 else "1x1"))
     for dims in shapes:
         lead_param = rng.random() < 0.45
         for j in range(rng.randint(2, 3) if lead_param else rng.randint(1, 3)):
@@ -310,6 +357,12 @@ def gen_program(rng, stream="main"):
                 elif has_q and len(dims) == 1:
                     f.cls_attrs[a] = ("plain", {"k": nested(rng, dims, -3, 3), "p": "q"})
                     feats.add("attr-param-vector")
+            if rng.random() < 0.35:
+                free = [a for a in NUM_ATTRS if a not in f.cls_attrs]
+                c = dm_ctor(rng, list(dims))
+                if c and free:
+                    f.cls_attrs[rng.choice(free)] = ("plain", c)
+                    feats.add("attr-dm-%s" % ("x".join(str(min(d, 2)) for d in dims)))
             if kind in ("alg", "input") and rng.random() < 0.3:
                 # attribute that refers to an array parameter declared earlier (needs _substitute_metadata)
                 allp = [x for k2, x in top.order if k2 == "f" and x.kind == "param" and x.typ == "Real"
